@@ -137,7 +137,44 @@ fn c06_info_reply_ignored() {
 }
 
 // @check props=C06 tier=quick
-// @desc dispatcher on a well-formed message [INFO_TS, INFO_SRC] with symbolic timestamp, version, vendor and prefixes: parsed by the real parser and iterated by the real MessageReceiver until exhaustion: no panic, nothing is yielded, the receiver holds the INFO_SRC prefix and the INFO_TS timestamp
+// @desc dispatcher on a well-formed message made only of interpreter submessages, [INFO_SRC, INFO_REPLY], with symbolic version, vendor and prefixes: parsed by the real parser and iterated by the real MessageReceiver until exhaustion: no panic, nothing is yielded, the receiver's source prefix is the INFO_SRC prefix
+// @bounds one 52-byte datagram, value fields symbolic; submessage ids / flags / lengths concrete; unwind 14
+// @enc rtps_messages::overall_structure::RtpsMessageRead::try_from
+// @enc rtps::message_receiver::MessageReceiver::next
+#[kani::proof]
+#[kani::unwind(14)]
+fn c06_receiver_dispatch_source() {
+    let prefix: GuidPrefix = kani::any();
+    let src: GuidPrefix = kani::any();
+    let mut c = [0u8; 52];
+    put_header(&mut c, &prefix);
+    put_sub(&mut c, 20, 0x0c, 1, 20); // INFO_SRC: unused(4) version(2) vendor(2) prefix(12)
+    c[28] = kani::any();
+    c[29] = kani::any();
+    c[30] = kani::any();
+    c[31] = kani::any();
+    let mut i = 0;
+    while i < 12 {
+        c[32 + i] = src[i];
+        i += 1;
+    }
+    put_sub(&mut c, 44, 0x0f, 1, 4); // INFO_REPLY, numLocators 0
+    match RtpsMessageRead::try_from(&c[..]) {
+        Ok(m) => {
+            assert!(m.submessages().len() == 2, "C06: two submessages parsed");
+            let mut mr = MessageReceiver::new(&m);
+            assert!(mr.next().is_none(), "C06: interpreter submessages are not yielded");
+            assert!(mr.source_guid_prefix() == src, "C06: source prefix after INFO_SRC");
+            assert!(mr.source_timestamp().is_none(), "C06: timestamp without INFO_TS");
+            kani::cover!(src[0] != prefix[0], "a source prefix different from the header's is recorded");
+            core::mem::forget(m);
+        }
+        Err(_) => assert!(false, "C06: well-formed message rejected"),
+    }
+}
+
+// @check props=C06 tier=thorough
+// @desc (NOT decided in the quick configuration: the solver ran out of memory in 2 of 3 runs) dispatcher on a well-formed message [INFO_TS, INFO_SRC] with symbolic timestamp, version, vendor and prefixes: parsed by the real parser and iterated by the real MessageReceiver until exhaustion: no panic, nothing is yielded, the receiver holds the INFO_SRC prefix and the INFO_TS timestamp
 // @bounds one 56-byte datagram, all value fields symbolic over their full domain; submessage ids / flags / lengths concrete; unwind 14
 // @enc rtps_messages::overall_structure::RtpsMessageRead::try_from
 // @enc rtps::message_receiver::MessageReceiver::next
@@ -236,8 +273,8 @@ fn c06_receiver_dispatch_timestamp_entity() {
 // 2. per-handler steps on a real participant
 // ------------------------------------------------------------------------------------------
 
-// @check props=C06 tier=quick
-// @desc the datagram [INFO_REPLY, HEARTBEAT_FRAG] handed to DcpsDomainParticipant::handle_data of a freshly constructed participant: no panic (formerly todo!()), the worker returns, nothing is sent
+// @check props=C06 tier=thorough timeout=1800
+// @desc (NOT decided: > 900 s - MessageReceiver yields a reference into a heap Vec, so CBMC explores every handler arm of handle_data, including the DATA / ACKNACK paths, on a symbolic submessage) the datagram [INFO_REPLY, HEARTBEAT_FRAG] handed to DcpsDomainParticipant::handle_data of a freshly constructed participant: no panic (formerly todo!()), the worker returns, nothing is sent
 // @bounds 56-byte datagram, symbolic prefix / ids / values; real participant; unwind 4 (+ per-loop bounds from the ptab entry: the handlers' loops over the 5 built-in readers 7, status-kind tables 14)
 // @assume critical_section::acquire/release stubbed (support_cs.rs)
 // @enc dcps::dcps_domain_participant::communication_methods::DcpsDomainParticipant::handle_data
@@ -270,8 +307,8 @@ fn gap_datagram(gap_start: i64, base: i64) -> [u8; 52] {
     b
 }
 
-// @check props=C06 tier=quick unwind_violation=1
-// @desc GAP from a matched (discovered) writer with ARBITRARY i64 gapStart and gapList.base - including ranges of 2^63 sequence numbers (formerly one loop iteration per sequence number, repaired in /repo with RtpsWriterProxy::irrelevant_change_range): handle_data returns without panic within the unwinding bound; the proxy skips the range exactly when it starts at or before the next expected sequence number and ends after it
+// @check props=C06 tier=thorough timeout=1800 unwind_violation=1
+// @desc (NOT decided: > 900 s, same reason as c06_info_reply_handle_data; the range operation itself is decided by c06_gap_range_proxy) GAP from a matched (discovered) writer with ARBITRARY i64 gapStart and gapList.base - including ranges of 2^63 sequence numbers (formerly one loop iteration per sequence number, repaired in /repo with RtpsWriterProxy::irrelevant_change_range): handle_data returns without panic within the unwinding bound; the proxy skips the range exactly when it starts at or before the next expected sequence number and ends after it
 // @bounds real participant whose built-in publications reader has one matched writer proxy in its initial state; one 52-byte GAP, gapStart / base symbolic over the full i64 range, empty bitmap; unwind 4, handler loops over the 5 built-in readers 7 (an unwinding failure = loop count controlled by the datagram)
 // @assume critical_section::acquire/release stubbed (support_cs.rs)
 // @enc dcps::dcps_domain_participant::communication_methods::DcpsDomainParticipant::handle_data
@@ -299,6 +336,76 @@ fn c06_gap_range_handle_data() {
         }
         None => assert!(false, "C06: matched writer proxy disappeared"),
     }
+    core::mem::forget(p);
+}
+
+// @check props=C06 tier=quick unwind_violation=1
+// @desc the operation handle_gap_submessage now performs on the looked-up writer proxy (communication_methods.rs: `writer_proxy.irrelevant_change_range(gap_start, gap_list.base())`, formerly one irrelevant_change_set per sequence number) for ARBITRARY i64 gapStart / base - including ranges of 2^63 sequence numbers - from the proxy's initial state and from a state with symbolic first-available / highest-received numbers: returns within the unwinding bound without panic; available_changes_max becomes base - 1 exactly when the range starts at or before the next expected number and ends after it, and is unchanged otherwise
+// @bounds one RtpsWriterProxy, empty fragment buffer; pre-state: lost_changes_update(first) with first in [-2^62, 2^62], then optionally one earlier range [1, h+1) with h in [0, 2^62]; gapStart / base over the full i64 range; unwind 3
+// @assume pre-state numbers within +-2^62 (sequence numbers at the i64 limits: see KF-C06-5)
+// @enc rtps::writer_proxy::RtpsWriterProxy::irrelevant_change_range
+// @enc rtps::writer_proxy::RtpsWriterProxy::available_changes_max
+#[kani::proof]
+#[kani::unwind(3)]
+fn c06_gap_range_proxy() {
+    let mut p = proxy();
+    let first: i64 = kani::any();
+    let h: i64 = kani::any();
+    kani::assume(first >= -(1i64 << 62) && first <= (1i64 << 62) && h >= 0 && h <= (1i64 << 62));
+    p.lost_changes_update(first);
+    if first <= 1 && h > 0 {
+        p.irrelevant_change_range(1, h + 1);
+    }
+    let before = p.available_changes_max();
+    let gap_start: i64 = kani::any();
+    let base: i64 = kani::any();
+    p.irrelevant_change_range(gap_start, base);
+    let after = p.available_changes_max();
+    let covers_next = base > gap_start && gap_start <= before + 1 && base > before + 1;
+    assert!(after == if covers_next { base - 1 } else { before }, "C06: GAP range applied wrongly");
+    kani::cover!(gap_start == i64::MIN && base == i64::MAX && covers_next, "a GAP over the whole sequence number range is applied in one step");
+    kani::cover!(!covers_next && base > gap_start, "a GAP that does not cover the next expected number changes nothing");
+    core::mem::forget(p);
+}
+
+// @check props=C06 tier=quick known=KF-C06-5
+// @desc KNOWN DEFECT (builds with overflow checks): a HEARTBEAT with firstSN = i64::MIN from a matched writer is stored by lost_changes_update; the next available_changes_max() - called by write_message in the same handler, and by every later DATA / GAP / HEARTBEAT step - computes `first_available_seq_num - 1` and overflows
+// @bounds one RtpsWriterProxy in its initial state; unwind 3
+// @assume trigger: firstSN == i64::MIN
+// @enc rtps::writer_proxy::RtpsWriterProxy::lost_changes_update
+// @enc rtps::writer_proxy::RtpsWriterProxy::available_changes_max
+#[kani::proof]
+#[kani::unwind(3)]
+fn c06_heartbeat_first_sn_min__known() {
+    let mut p = proxy();
+    p.lost_changes_update(i64::MIN);
+    let m = p.available_changes_max();
+    assert!(m >= 0, "C06: unreachable if the defect is present");
+    core::mem::forget(p);
+}
+
+// @check props=C06 tier=quick
+// @desc the proxy arithmetic of the HEARTBEAT step outside the recorded trigger: missing_changes_update(lastSN) and lost_changes_update(firstSN) with any lastSN and any firstSN > i64::MIN, then available_changes_max() and the bounds of missing_changes(): no panic; available_changes_max = max(firstSN - 1, 0)
+// @bounds one RtpsWriterProxy in its initial state (highest received = 0); unwind 3
+// @assume NOT trigger KF-C06-5: firstSN > i64::MIN
+// @enc rtps::writer_proxy::RtpsWriterProxy::lost_changes_update
+// @enc rtps::writer_proxy::RtpsWriterProxy::missing_changes_update
+// @enc rtps::writer_proxy::RtpsWriterProxy::available_changes_max
+// @enc rtps::writer_proxy::RtpsWriterProxy::missing_changes
+#[kani::proof]
+#[kani::unwind(3)]
+fn c06_heartbeat_arithmetic__rest() {
+    let mut p = proxy();
+    let first: i64 = kani::any();
+    let last: i64 = kani::any();
+    kani::assume(first > i64::MIN);
+    p.missing_changes_update(last);
+    p.lost_changes_update(first);
+    let m = p.available_changes_max();
+    assert!(m == if first - 1 > 0 { first - 1 } else { 0 }, "C06: available_changes_max after a HEARTBEAT");
+    let it = p.missing_changes();
+    core::mem::forget(it);
+    kani::cover!(first == i64::MAX && last == i64::MIN, "extreme HEARTBEAT numbers are stored without panic");
     core::mem::forget(p);
 }
 
